@@ -834,6 +834,9 @@ class SegmentationImage:
 
         old_slices = self.__dict__.get('slices', None)
         dtype = self.data.dtype  # keep the original dtype
+        if start_label + self.nlabels - 1 > np.iinfo(dtype).max:
+            raise ValueError('start_label is too large: the new labels do '
+                             f'not fit in the data dtype ({dtype}).')
         new_labels = np.arange(self.nlabels, dtype=dtype) + start_label
         new_label_map = np.zeros(self.max_label + 1, dtype=dtype)
         new_label_map[self.labels] = new_labels
